@@ -1407,7 +1407,9 @@ def run(ctx):
         "MCIntegrator and on the Coq model; non-trivial when a collapse search ran; distinct by the "
         "full case.  trajectory case = (system kind, H, c_ops, initial state, ODE method, "
         "norm_tol/norm_t_tol/norm_steps, improved_sampling, seed); counted per trajectory replayed "
-        "against the NumPy/SciPy reference")
+        "against the NumPy/SciPy reference.  martingale case = (a, scripted quadrature/rates/shift, history "
+        "of reset/initialize/add_collapse/value calls on dyadic times); mixed case = (dyadic weights, "
+        "ntraj as number or list, ids), incl. malformed ones")
     ctx.cov["trusted_base"] += [
         "oracles of Model/C16.v (Section variables / function arguments): ODE flow and its squared "
         "norm nrm2, np.log (assumed positive and monotone above 1 in C16_search_requests_inside_bracket), "
@@ -1420,18 +1422,22 @@ def run(ctx):
         "Model/C16.v is hand-written; tied to mcsolve.py by the bit-exact trace correspondence on "
         "PrimFloat; the generator algebra is tied by tools/tx_c16_rhs.py",
         "independent reference of the oracle: scipy.integrate.solve_ivp(DOP853, rtol 1e-11) and brentq",
-        "nm_mcsolve (influence martingale, completion operator, trace-weighted averages) is covered by "
-        "the implementation-level oracle only: no Coq model",
+        "nm_mcsolve: InfluenceMartingale is modelled (Model/C16_nm.v) with scipy.integrate.quad and "
+        "np.exp as oracles (assumed: quadrature additive over adjacent intervals, exp(x+y)=exp x exp y, "
+        "exp 0 = 1); the completion operator's construction (eigendecomposition, sqrtm) and the "
+        "trace-weighted averages of NmmcResult are covered by the implementation-level oracle only",
+        "_InitialConditions is modelled over exact rational weights (Model/C16_mix.v); np.ceil and the "
+        "float ratio ordering are exact for the dyadic weights of the correspondence",
     ]
-    props = ["Props/C16.v"]
-    targets = ["Props/C16.vo"]
+    props = ["Props/C16.v", "Props/C16_nm.v", "Props/C16_mix.v"]
+    targets = ["Props/C16.vo", "Props/C16_nm.vo", "Props/C16_mix.vo"]
     gen_ok = True
     try:
         import tx_c16_rhs
         info = tx_c16_rhs.generate()
         ctx.sample({"generated_rhs": info})
-        props.append("Props/C16_gen.v")
-        targets += ["Gen/C16_rhs.vo", "Props/C16_gen.vo"]
+        props += ["Props/C16_gen.v", "Props/C16_nm_gen.v"]
+        targets += ["Gen/C16_rhs.vo", "Props/C16_gen.vo", "Props/C16_nm_gen.vo"]
     except ImportError:
         gen_ok = False
     except Exception as e:      # translator failed closed
@@ -1481,6 +1487,11 @@ def run(ctx):
         for site, sig, msg in analyse_scripted(c, r):
             ctx.violation(site, sig, msg, {"kind": "scripted", "case": c})
     ctx.sample({"scripted_case": cases[-1], "impl_trace": canon_impl(impls[-1])})
+
+    # ---- InfluenceMartingale and _InitialConditions: exact correspondence
+    compare_martingale(ctx, 150 if ctx.quick else 1500, rng)
+    compare_mixed(ctx, 200 if ctx.quick else 2000, rng)
+    ctx.log("martingale and mixed-state correspondence done")
 
     # ---- the former last-try defect (norm_steps=1) on the real solver: must not raise
     msg = witness_real_norm_steps()
@@ -1691,6 +1702,25 @@ def replay(ctx, payload):
         for sig, message, det in bad[:2]:
             site, sig = classify(spec, sig)
             ctx.violation(site, sig, message, {"kind": "system", "spec": d["spec"], "detail": det})
+    elif kind == "mart":
+        c = d["case"]
+        r = run_mart_impl(c)
+        v = vlib.coq_eval_values("replay_C16_nm", HEADER_NM, [coq_mart_expr(c, r)])[0]
+        m, im = canon_mart_model(parse_val(v)), canon_mart_impl(r)
+        if m != im:
+            keys = [k for k in im if im[k] != m[k]]
+            ctx.violation(payload["site"], "model-differs:" + keys[0],
+                          "InfluenceMartingale and the Coq model disagree on %s" % keys,
+                          {"kind": "mart", "case": c})
+    elif kind == "mix":
+        c = d["case"]
+        r = run_mix_impl(c)
+        v = vlib.coq_eval_values("replay_C16_mix", HEADER_MIX, [coq_mix_expr(c)])[0]
+        st, counts, idx = parse_val(v)
+        model = (int(st), [int(x) for x in counts], [None if x is None else int(x[1]) for x in idx])
+        if model != (r["status"], r["counts"], r["idx"]):
+            ctx.violation(payload["site"], "model-differs",
+                          "_InitialConditions and the Coq model disagree", {"kind": "mix", "case": c})
     elif kind == "nm":
         spec = spec_from_json(d["spec"])
         bad, st = check_nm(spec)
@@ -2140,3 +2170,109 @@ def compare_martingale(ctx, n, rng):
                               {"kind": "mart", "case": c, "impl": {k: im[k] for k in keys},
                                "model": {k: m[k] for k in keys}})
     ctx.sample({"martingale_case": cases[-1], "impl_outs": impls[-1]["outs"]})
+
+
+# ===================================================================
+# _InitialConditions: exact correspondence with Model/C16_mix.v
+# ===================================================================
+HEADER_MIX = ("From Coq Require Import List Bool Arith ZArith QArith.\n"
+              "Import ListNotations.\nFrom QV Require Import Model.C16_mix.\n"
+              "Local Open Scope nat_scope.\n")
+
+
+def gen_mix_case(rng):
+    k = rng.randint(1, 6)
+    den = 64
+    if rng.random() < 0.75:
+        # weights k_i/64 with sum 1
+        cuts = sorted(rng.sample(range(1, den), k - 1)) if k > 1 else []
+        parts = [b - a for a, b in zip([0] + cuts, cuts + [den])]
+        if rng.random() < 0.2 and k > 1:
+            j = rng.randrange(k)                       # a zero weight
+            parts[(j + 1) % k] += parts[j]
+            parts[j] = 0
+    else:
+        parts = [rng.randint(0, 40) for _ in range(k)]  # malformed: any sum
+    if rng.random() < 0.7:
+        ntraj = rng.choice([1, 2, 3, 5, 7, 10, 16, 33, 64, 100, 129])
+    else:
+        ntraj = [rng.randint(0 if rng.random() < 0.2 else 1, 9)
+                 for _ in range(k if rng.random() < 0.85 else k + 1)]
+    tot = ntraj if isinstance(ntraj, int) else sum(ntraj)
+    ids = sorted(set([0, max(tot - 1, 0), tot, tot + 1] + [rng.randrange(0, tot + 2) for _ in range(6)]))
+    return {"parts": parts, "den": den, "ntraj": ntraj, "ids": ids}
+
+
+def run_mix_impl(case):
+    from qutip.solver.multitraj import _InitialConditions
+    ws = [p / case["den"] for p in case["parts"]]
+    try:
+        ic = _InitialConditions([(None, w) for w in ws], case["ntraj"])
+    except ValueError:
+        return {"status": 1, "counts": [], "idx": [], "corr": []}
+    except IndexError:
+        return {"status": 2, "counts": [], "idx": [], "corr": []}
+    idx = []
+    corr = []
+    for i in case["ids"]:
+        try:
+            k = int(ic.get_state_index(i))
+            idx.append(k)
+            corr.append(float(ic.get_state_and_weight(i)[1]))
+        except IndexError:
+            idx.append(None)
+            corr.append(None)
+    return {"status": 0, "counts": [int(x) for x in ic.ntraj], "idx": idx, "corr": corr,
+            "total": int(ic.ntraj_total)}
+
+
+def coq_mix_expr(case):
+    ws = clist(case["parts"], lambda p: "(%d # %d)%%Q" % (p, case["den"]))
+    nt = ("(inl %s)" % cnat(case["ntraj"]) if isinstance(case["ntraj"], int)
+          else "(inr %s)" % clist(case["ntraj"], cnat))
+    return "mix_observe %s %s %s" % (ws, nt, clist(case["ids"], cnat))
+
+
+def compare_mixed(ctx, n, rng):
+    cases = [gen_mix_case(rng) for _ in range(n)]
+    impls = [run_mix_impl(c) for c in cases]
+    try:
+        vals = vlib.coq_eval_values("cases_C16_mix", HEADER_MIX, [coq_mix_expr(c) for c in cases],
+                                    chunk=150)
+    except RuntimeError as e:
+        ctx.violation("corr:C16:mix-model-eval", "coqc", "mixed-state model evaluation failed",
+                      {"log": str(e)[-2000:]}, found_input=False)
+        return
+    mism = 0
+    for c, r, v in zip(cases, impls, vals):
+        st, counts, idx = parse_val(v)
+        model = (int(st), [int(x) for x in counts],
+                 [None if x is None else int(x[1]) for x in idx])
+        impl = (r["status"], r["counts"], r["idx"])
+        ctx.cov["traces_validated_against_impl"] += 1
+        ctx.count_case(("mix", json.dumps(c, sort_keys=True)), nontrivial=len(c["parts"]) > 1)
+        bad = []
+        if r["status"] == 0:
+            # the property itself on the implementation's answer
+            ws = [p / c["den"] for p in c["parts"]]
+            N = r["total"]
+            if isinstance(c["ntraj"], int) and sum(r["counts"]) != c["ntraj"] and sum(c["parts"]) == c["den"]:
+                bad.append(("counts-do-not-sum-to-ntraj", "trajectory numbers %r do not sum to ntraj=%r"
+                            % (r["counts"], c["ntraj"])))
+            seen = {}
+            for i, k, cw in zip(c["ids"], r["idx"], r["corr"]):
+                if k is not None:
+                    seen[k] = cw
+            tw = sum(r["counts"][k] * cw / N for k, cw in seen.items())
+            if len(seen) == len(ws) and abs(tw - sum(ws)) > 1e-12:
+                bad.append(("weights-do-not-sum", "weights of the trajectories sum to %r, the mixture "
+                            "weights to %r" % (tw, sum(ws))))
+        for sig, b in bad:
+            ctx.violation("multitraj._InitialConditions", sig, b, {"kind": "mix", "case": c})
+        if model != impl:
+            mism += 1
+            if mism <= 3:
+                ctx.violation("corr:multitraj._InitialConditions", "model-differs",
+                              "_InitialConditions and the Coq model disagree",
+                              {"kind": "mix", "case": c, "impl": impl, "model": model})
+    ctx.sample({"mixed_case": cases[-1], "impl": impls[-1]})
